@@ -61,12 +61,14 @@ fn main() {
                     "history" => gens::history(&spec),
                     "churn" => gens::churn(&spec),
                     "fresh_race" => gens::fresh_race(&spec),
+                    "batch_race" => gens::batch_race(&spec),
                     "iter_api" => gens::iter_api(spec["bits"].as_u64().unwrap() as usize, spec["cap"].as_u64().unwrap() as usize),
-                    _ => gens::describe(
+                    _ => gens::describe_via(
                         spec["bits"].as_u64().unwrap() as usize,
                         spec["cap"].as_u64().unwrap() as usize,
                         spec["T"].as_u64().unwrap_or(6) as usize,
                         spec["table"].as_bool().unwrap_or(false),
+                        spec["via_statement"].as_u64().map(|m| m as usize),
                     ),
                 };
                 writeln!(out, "{}", rec).unwrap();
